@@ -690,3 +690,9 @@ Proof.
   assert (C : pos = 0 \/ pos = 1 \/ pos = 2) by lia.
   destruct C as [-> | [-> | ->]]; vm_compute; split; discriminate.
 Qed.
+
+(* string.find takes the plain search exactly when Lua does; string.match (which passes plain = false and no find flag)
+   never does, like Lua *)
+Lemma use_plain_eq_lua pat plain : nl_use_plain pat plain true = lua_use_plain pat plain true /\
+  nl_use_plain pat false false = lua_use_plain pat plain false.
+Proof. unfold nl_use_plain, lua_use_plain. destruct (has_specials pat), plain; split; reflexivity. Qed.
